@@ -180,7 +180,8 @@ def _builder_chain(f, op, allowed):
 
 def r3_json_body(ctx):
     R = ctx.rule("C12.R3", "the blanket to_response serialises `self` with serde_json, sets CONTENT_TYPE = application/json on the builder it was given and returns that response", floor=7)
-    f = ctx.need_fn(ctx.ds, R, r"^<T as handler::HttpResponseContent>::to_response$")
+    # normalised view: `to_vec(&self).map_err(..).and_then(|b| builder.header(..).body(b.into()).map_err(..))` is the `?` form
+    f = ctx.need_fn(ctx.dsn, R, r"^<T as handler::HttpResponseContent>::to_response$")
     bodies = f.live_calls(r"http::response::Builder::body$")
     ctx.check(R, "one-body-call", len(bodies) == 1, "Builder::body calls: %d" % len(bodies), f)
     SER = r"^serde_json::(to_string|to_vec|to_writer)$"
